@@ -7,6 +7,7 @@ def dap4Err : Dap4.Err → String
   | .valueError => "(err ValueError)"
   | .indexError => "(err IndexError)"
   | .keyError => "(err KeyError)"
+  | .eofError => "(err EOFError)"
 
 def b01 (b : Bool) : String := if b then "1" else "0"
 
